@@ -19,7 +19,10 @@ where
     for (_, n) in g.iter() {
         nodes.push((n.key().clone(), n.value().clone()));
 
-        for Edge(u, v, e) in n.iter() {
+        // Every edge is stored at both endpoints; list it once, at the node that
+        // created it, or deserialisation (which connects every listed edge) would
+        // duplicate it.
+        for Edge(u, v, e) in n.iter().take(n.created_edges()) {
             edges.push((u.key().clone(), v.key().clone(), e));
         }
     }
